@@ -228,6 +228,95 @@ mod value_rt {
     }
 }
 
+/// C20: `serialized_size(v) == to_vec(v).len()` for DESCRIBED composites (derive(SerializeComposite): described list / described basic), which do not
+/// occur among untyped `Value`s: empty bodies, bodies on both sides of the list8 / list32 boundary, composites nested in composites
+mod size_composites {
+    use fe2o3_amqp::types::{definitions::{self, Role}, messaging::{Accepted, Released, Rejected, Modified, Received, Header, Properties, ApplicationProperties, Data, AmqpValue, DeliveryState, Outcome}, performatives::{Disposition, End, Detach, Flow}};
+    use serde_amqp::{serialized_size, to_vec, primitives::Binary, Value};
+    fn one<T: serde_amqp::serde::Serialize + std::fmt::Debug>(v: &T, tried: &mut u64) -> Option<String> {
+        *tried += 1;
+        let b = match to_vec(v) { Ok(b) => b, Err(e) => return Some(format!("to_vec({:.120?}) fails: {:?}", v, e)) };
+        match serialized_size(v) {
+            Ok(n) if n == b.len() => None,
+            Ok(n) => { let hx: String = b.iter().take(24).map(|x| format!("{:02x}", x)).collect::<Vec<_>>().join(" ");
+                Some(format!("serde_amqp::serialized_size({:.120?}) = {} but to_vec writes {} octets [{}{}]", v, n, b.len(), hx, if b.len() > 24 { " .." } else { "" })) }
+            Err(e) => Some(format!("serialized_size({:.120?}) fails: {:?}", v, e)),
+        }
+    }
+    pub fn all(tried: &mut u64) -> Option<String> {
+        macro_rules! t { ($e:expr) => { if let Some(m) = one(&$e, tried) { return Some(m); } } }
+        t!(Accepted {}); t!(Released {}); t!(Rejected { error: None }); t!(Modified { delivery_failed: None, undeliverable_here: None, message_annotations: None });
+        t!(Received { section_number: 1, section_offset: 2 });
+        t!(End { error: None }); t!(Header::default()); t!(Properties::default());
+        t!(DeliveryState::Accepted(Accepted {})); t!(Outcome::Released(Released {}));
+        t!(Disposition { role: Role::Receiver, first: 0, last: None, settled: true, state: Some(DeliveryState::Accepted(Accepted {})), batchable: false });
+        t!(Detach { handle: 3u32.into(), closed: true, error: Some(definitions::Error::new(definitions::AmqpError::InternalError, Some("x".repeat(300)), None)) });
+        t!(Flow { next_incoming_id: Some(1), incoming_window: 2, next_outgoing_id: 3, outgoing_window: 4, handle: None, delivery_count: None, link_credit: None, available: None, drain: false, echo: false, properties: None });
+        // a described list whose body crosses the list8 / list32 boundary (descriptor 3 octets): every body size 230 ..= 270
+        for n in 220usize..=270 {
+            t!(Properties { user_id: Some(Binary::from(vec![7u8; n])), ..Default::default() });
+            t!(Rejected { error: Some(definitions::Error::new(definitions::AmqpError::InternalError, Some("d".repeat(n)), None)) });
+        }
+        for n in [0usize, 1, 252, 253, 254, 255, 256, 300] { t!(Data(Binary::from(vec![1u8; n]))); t!(AmqpValue(Value::String("s".repeat(n)))); }
+        t!(ApplicationProperties::default());
+        None
+    }
+}
+
+/// C20: "converting a typed value to the untyped value tree and back is equivalent to going through bytes":
+/// from_value::<T>(to_value(&v)) agrees with from_slice::<T>(&to_vec(&v)) (both Ok with equal values)
+mod value_tree {
+    use std::collections::BTreeMap;
+    use fe2o3_amqp::types::{definitions::Role, messaging::{Accepted, Header, Properties, DeliveryState, Data, AmqpValue}, performatives::{Disposition, End}};
+    use serde_amqp::{from_slice, from_value, to_value, to_vec, described::Described, descriptor::Descriptor, primitives::*, serde::{de::DeserializeOwned, Serialize}, Value};
+    fn one<T: Serialize + DeserializeOwned + PartialEq + std::fmt::Debug>(v: &T, tried: &mut u64) -> Option<String> {
+        *tried += 1;
+        let via_bytes: Result<T, String> = to_vec(v).map_err(|e| format!("{:?}", e)).and_then(|b| from_slice::<T>(&b).map_err(|e| format!("{:?}", e)));
+        let tree = to_value(v);
+        let via_tree: Result<T, String> = match &tree { Ok(t) => from_value::<T>(t.clone()).map_err(|e| format!("{:?}", e)), Err(e) => Err(format!("to_value: {:?}", e)) };
+        let same = match (&via_bytes, &via_tree) { (Ok(a), Ok(b)) => a == b && a == v, _ => false };
+        if same { None } else {
+            Some(format!("{} {:.100?}: through bytes {:.140?}; through the value tree ({:.100?}) {:.140?}", std::any::type_name::<T>(), v, via_bytes, tree.ok(), via_tree))
+        }
+    }
+    pub fn all(class: u8, tried: &mut u64) -> Option<String> {
+        macro_rules! t { ($e:expr) => { if let Some(m) = one(&$e, tried) { return Some(m); } } }
+        match class {
+            // plain (undescribed) typed values: primitives, sequences, tuples, maps, arrays -- arrays of lists / tuples included
+            0 => {
+                t!(7i32); t!(-7i64); t!(200u8); t!(0u32); t!(300u32); t!(0u64); t!(5_000_000_000u64); t!(true); t!(false); t!('x'); t!(1.5f32); t!(-2.5f64); t!(-3i8); t!(-300i16); t!(60000u16);
+                t!(String::from("h\u{e9}llo")); t!("x".repeat(300)); t!(Symbol::from("sym")); t!(Binary::from(vec![1u8, 2, 3])); t!(Binary::from(vec![0u8; 300]));
+                t!(Timestamp::from(12345)); t!(Uuid::from([7u8; 16])); t!(Dec32::from([1, 2, 3, 4])); t!(Dec64::from([1u8; 8])); t!(Dec128::from([9u8; 16]));
+                t!(None::<i32>); t!(Some(5i32)); t!(Some(String::from("s"))); t!(());
+                t!(Vec::<i32>::new()); t!(vec![1i32, 2, 3]); t!(vec![String::from("a"), String::from("b")]); t!(vec![vec![1i32], vec![], vec![2, 3]]); t!(vec![Some(1i32), None]);
+                t!((1i32, String::from("x"))); t!((true, 2u8, Symbol::from("s")));
+                t!(BTreeMap::from([(String::from("a"), 1i32), (String::from("b"), 2)])); t!(BTreeMap::from([(1i32, vec![1i32, 2])]));
+                t!(OrderedMap::<Symbol, i32>::from_iter([(Symbol::from("k"), 1)])); t!(OrderedMap::<String, String>::from_iter([(String::from("k"), String::from("v"))]));
+                t!(Array::from(Vec::<i32>::new())); t!(Array::from(vec![1i32, 2, 3])); t!(Array::from(vec![Symbol::from("a"), Symbol::from("b")])); t!(Array::from(vec![String::from("a")]));
+                t!(Array::from(vec![vec![1i32], vec![2i32]])); t!(Array::from(vec![(1i32, 2i32), (3, 4)])); t!(Array::from(vec![Array::from(vec![1i32]), Array::from(vec![2i32, 3])]));
+                t!(vec![Array::from(vec![1u8, 2])]); t!(Some(Array::from(vec![true, false])));
+                None
+            }
+            // described types (derive(SerializeComposite / DeserializeComposite), Described<T>)
+            1 => {
+                t!(Accepted {}); t!(End { error: None }); t!(Header::default()); t!(Properties { user_id: Some(Binary::from(vec![1u8, 2])), ..Default::default() });
+                t!(Disposition { role: Role::Receiver, first: 0, last: None, settled: true, state: Some(DeliveryState::Accepted(Accepted {})), batchable: false });
+                t!(Data(Binary::from(vec![1u8]))); t!(AmqpValue(7i32));
+                t!(Described { descriptor: Descriptor::Code(0x13), value: 7i32 });
+                None
+            }
+            // the untyped tree itself as the target type
+            _ => {
+                t!(Value::Int(1)); t!(Value::String("s".into())); t!(Value::Symbol(Symbol::from("s"))); t!(Value::Timestamp(Timestamp::from(5)));
+                t!(Value::List(vec![Value::Int(1), Value::Bool(true)])); t!(Value::Array(Array::from(vec![Value::Int(1), Value::Int(2)])));
+                t!(Value::Described(Box::new(Described { descriptor: Descriptor::Code(0x24), value: Value::List(vec![]) })));
+                t!(OrderedMap::<Symbol, Value>::from_iter([(Symbol::from("k"), Value::Symbol(Symbol::from("v")))]));
+                None
+            }
+        }
+    }
+}
+
 fn main() {
     let args: Vec<String> = std::env::args().collect();
     if args.len() < 2 { eprintln!("usage: verif-falsify <family> [seed]"); std::process::exit(2); }
@@ -270,6 +359,10 @@ fn main() {
         "C03.value-rt" => { found = value_rt::all(0, &mut tried); }
         "C03.array-of-described" => { found = value_rt::all(1, &mut tried); }
         "C03.array-of-zero-width" => { found = value_rt::all(2, &mut tried); }
+        "C20.size-composites" => { found = size_composites::all(&mut tried); }
+        "C20.value-tree-plain" => { found = value_tree::all(0, &mut tried); }
+        "C20.value-tree-described" => { found = value_tree::all(1, &mut tried); }
+        "C20.value-tree-untyped" => { found = value_tree::all(2, &mut tried); }
         _ => { println!("FALSIFY unknown-family"); std::process::exit(2); }
     }
     match found {
